@@ -291,7 +291,16 @@ def independence_check(res, known, args):
     found = 0
     for pid, text in progs:
         alone = {}
+        unstable = set()
         usable = True
+        # programs whose packets collide on one output file name are C13's recorded finding
+        # (nondeterministic alone): not comparable across sequences
+        probe = hook.ask({"op": "visit", "text": text})
+        if "model" in probe:
+            pk = [p["name"] for p in probe["model"]["packets"]]
+            nm = hook.ask({"op": "names", "idents": pk})["names"]
+            if len(set(nm[x][2] for x in pk)) != len(pk):
+                unstable = {"go", "rust", "java"}
         for lang in ALL_LANGS:
             resp = hook.ask({"op": "gen", "text": text, "langs": [lang]})
             if "steps" not in resp:
@@ -299,6 +308,11 @@ def independence_check(res, known, args):
                 break
             st = resp["steps"][0]
             alone[lang] = st.get("files", {"<panic>": st.get("panic", "")})
+            # a generator that is not even deterministic alone (C13's business, e.g. the file-name
+            # collision finding) cannot be compared across sequences
+            again = hook.ask({"op": "gen", "text": text, "langs": [lang]})
+            if "steps" in again and again["steps"][0].get("files", {"<panic>": again["steps"][0].get("panic", "")}) != alone[lang]:
+                unstable.add(lang)
             if not st.get("model_unchanged", True) and found < 3:
                 found += 1
                 res.violation({"kind": "model-mutated", "what": "the %s generator alters the parsed model" % lang, "dsl": text, "lang": lang,
@@ -317,6 +331,8 @@ def independence_check(res, known, args):
             n += 1
             for lang, st in zip(seq, resp["steps"]):
                 files = st.get("files", {"<panic>": st.get("panic", "")})
+                if lang in unstable:
+                    continue
                 if files != alone[lang] and found < 3:
                     found += 1
                     fname = next((f for f in files if files.get(f) != alone[lang].get(f)), "(file set)")
